@@ -10,6 +10,7 @@ import ButlerModel.Driver.C18
 import ButlerModel.Driver.C13
 import ButlerModel.Driver.C02
 import ButlerModel.Driver.C10
+import ButlerModel.Driver.C07
 /-! Line-protocol driver: one request per line on stdin, one reply per line on stdout.
 The first token selects the model; stateful models keep their state in `DState`. -/
 
@@ -30,6 +31,7 @@ def step (st : DState) (line : String) : DState × String :=
   | "dim" :: rest => (st, Driver.C12.handle rest)
   | "expr" :: rest => (st, Driver.C14.handle rest)
   | "cfg" :: rest => (st, Driver.C18.handle rest)
+  | "txn" :: rest => (st, Driver.C07.handle rest)
   | "cal" :: rest => let (c, out) := Driver.C04.handle st.cal rest; ({ st with cal := c }, out)
   | "ch" :: rest => let (c, out) := Driver.C03.handle st.ch rest; ({ st with ch := c }, out)
   | "cache" :: rest => let (c, out) := Driver.C17.handle st.cache rest; ({ st with cache := c }, out)
